@@ -62,19 +62,34 @@ def load_known(prop: str) -> Dict[str, dict]:
             if k.get("status") == "open" and prop in (k.get("property"), *k.get("properties", []))}
 
 
+def _reservoir(res: List[str], seen: int, line: str, n: int, rng: random.Random) -> None:
+    if len(res) < n:
+        res.append(line)
+    else:
+        j = rng.randrange(seen)
+        if j < n:
+            res[j] = line
+
+
 def sample_cases(src: str, dst: str, n: int, rng: random.Random, prop: str, tier: str) -> int:
-    """Seeded reservoir sample; assigns id, target and (C13) rewrite sites."""
-    chosen: List[str] = []
-    k = 0
+    """Seeded, stratified reservoir sample: three quarters of the budget go to
+    programs the model assembles, one quarter to programs it refuses (the
+    model's prediction only schedules cases, it is never a verdict).  Assigns
+    id, target and (C13) rewrite sites."""
+    n_ok, n_err = n - n // 4, n // 4
+    ok: List[str] = []
+    err: List[str] = []
+    k_ok = k_err = 0
     with open(src) as f:
         for line in f:
-            k += 1
-            if len(chosen) < n:
-                chosen.append(line)
+            if '"mexc":""' in line:
+                k_ok += 1
+                _reservoir(ok, k_ok, line, n_ok, rng)
             else:
-                j = rng.randrange(k)
-                if j < n:
-                    chosen[j] = line
+                k_err += 1
+                _reservoir(err, k_err, line, n_err, rng)
+    chosen = ok + err
+    rng.shuffle(chosen)
     with open(dst, "w") as out:
         for i, line in enumerate(chosen):
             c = json.loads(line)
